@@ -338,6 +338,42 @@ def inline_adjacent_temps(ref_fn, cur_fn) -> int:
     return total
 
 
+def renest_else(ref_fn, cur_fn) -> int:
+    """`if c: ...; return`  followed by statements T   ->   `if c: ...; return  else: T`, when the if-body always leaves the block (ends in
+    return / raise / continue / break) and the re-nested statement equals (modulo local names) an if-statement of the reference function while
+    the statement as written equals none.  Equivalent programs whatever the reference says (pylint's no-else-return, undone)."""
+    locals_, fixed = _core._scope_info(cur_fn)
+    ref_locals, _ = _core._scope_info(ref_fn)
+    fixed = fixed - ref_locals
+    ref_ifs = [n for n in ast.walk(ref_fn) if isinstance(n, ast.If)]
+    if not ref_ifs:
+        return 0
+
+    def matches(cand) -> bool:
+        return any(_core._match(r, cand, locals_, fixed, {}) for r in ref_ifs)
+
+    n = 0
+    blocks = []
+    for node in ast.walk(cur_fn):
+        for field in ("body", "orelse", "finalbody"):
+            blk = getattr(node, field, None)
+            if isinstance(blk, list) and blk and isinstance(blk[0], ast.stmt):
+                blocks.append(blk)
+    # innermost blocks first, so that chains are rebuilt from the inside out
+    for blk in reversed(blocks):
+        i = len(blk) - 2
+        while i >= 0:
+            st = blk[i]
+            if isinstance(st, ast.If) and not st.orelse and st.body and isinstance(st.body[-1], (ast.Return, ast.Raise, ast.Continue, ast.Break)) and i + 1 < len(blk) and not matches(st):
+                cand = ast.If(test=st.test, body=st.body, orelse=blk[i + 1 :])
+                if matches(cand):
+                    st.orelse = blk[i + 1 :]
+                    del blk[i + 1 :]
+                    n += 1
+            i -= 1
+    return n
+
+
 def normalise_module(rel: str, tree: ast.AST) -> int:
     """Strip no-op statements, align branch polarity with the reference spelling, and rename locals of `tree` in place back to
     reference names; returns the number of rewrites."""
@@ -351,6 +387,7 @@ def normalise_module(rel: str, tree: ast.AST) -> int:
         if rf is None:
             continue
         n += inline_adjacent_temps(rf, cur)
+        n += renest_else(rf, cur)
         n += align_branches(rf, cur)
         mp = _mapping(rf, cur)
         if not mp:
